@@ -376,6 +376,16 @@ impl<'a> Body<'a> {
                     let inner = strip_paren(&c.expr).clone();
                     self.note("R3", "`E as f64` -> usize_as_f64(E)".into());
                     *e = parse_expr(quote!(usize_as_f64(#inner)));
+                } else if ty == "isize" && matches!(strip_paren(&c.expr), Expr::MethodCall(m) if m.method == "ceil" && m.args.is_empty()) {
+                    if let Expr::MethodCall(m) = strip_paren(&c.expr) {
+                        let r = &m.receiver;
+                        self.note("R3", "`E.ceil() as isize` -> f64_ceil_as_isize(E)".into());
+                        *e = parse_expr(quote!(f64_ceil_as_isize(#r)));
+                    }
+                } else if ty == "isize" && self.opt_list("bool_casts").iter().any(|f| self.func.ends_with(f.as_str())) {
+                    let inner = strip_paren(&c.expr).clone();
+                    self.note("R3", "`b as isize` (bool) -> bool_as_isize(b)".into());
+                    *e = parse_expr(quote!(bool_as_isize(#inner)));
                 } else if ty == "usize" {
                     // E.ceil() as usize
                     if let Expr::MethodCall(m) = strip_paren(&c.expr) {
@@ -489,6 +499,26 @@ impl<'a> Body<'a> {
                     return;
                 }
             }
+            Expr::Index(ix) => {
+                // R26: `x[Enum::Variant]` through the repository's one-line `impl Index<Enum> for Scores { &self.0[score as usize] }`
+                // -> `x.0[<declared discriminant>]`
+                if let Some(tbl) = self.unit.opts.get("enum_index").and_then(|v| v.as_table()) {
+                    let ety = tbl.get("type").and_then(|v| v.as_str()).unwrap_or("");
+                    if let Expr::Path(p) = &*ix.index {
+                        let segs: Vec<String> = p.path.segments.iter().map(|s| s.ident.to_string()).collect();
+                        if segs.len() == 2 && segs[0] == ety {
+                            if let Some(d) = tbl.get("variants").and_then(|v| v.as_table()).and_then(|t| t.get(&segs[1])).and_then(|v| v.as_integer()) {
+                                let base = &ix.expr;
+                                let lit = proc_macro2::Literal::usize_unsuffixed(d as usize);
+                                self.note("R26", format!("`[{}::{}]` -> `.0[{}]` (declared discriminant)", ety, segs[1], d));
+                                *e = parse_expr(quote!(#base.0[#lit]));
+                            } else {
+                                fail(&format!("lost anchor: enum variant {}::{} has no declared discriminant", ety, segs[1]));
+                            }
+                        }
+                    }
+                }
+            }
             Expr::Path(p) => {
                 let s = p.to_token_stream().to_string().replace(' ', "");
                 if s == "std::f64::EPSILON" || s == "f64::EPSILON" {
@@ -509,6 +539,9 @@ impl<'a> Body<'a> {
 
     fn rewrite_stmt(&mut self, stmt: Stmt) -> Vec<Stmt> {
         // returns the replacement (children NOT yet visited)
+        if let Some(v) = self.hoist_chain(&stmt) {
+            return v;
+        }
         match &stmt {
             Stmt::Expr(Expr::ForLoop(fl), _) => {
                 if let Some(v) = self.rule_enumerate(fl) {
@@ -521,6 +554,9 @@ impl<'a> Body<'a> {
                     return v;
                 }
                 if let Some(v) = self.rule_custom_iter(fl) {
+                    return v;
+                }
+                if let Some(v) = self.rule_zip(fl) {
                     return v;
                 }
                 if let Some(v) = self.rule_slice_iter(fl) {
@@ -565,7 +601,6 @@ impl<'a> Body<'a> {
                 self.note("R12", format!("`let {} = <iterator chain>` outlined into {}(..); chain text hash {h:016x}{}", spec.var, spec.name, if !spec.sha.is_empty() && spec.sha != format!("{h:016x}") { " CHANGED" } else { "" }));
                 vec![Stmt::Local(l2)]
             }
-            Stmt::Local(l) if self.rule_map_sum_applies(l) => self.rule_map_sum(l).unwrap(),
             Stmt::Local(l) => {
                 // remember `let X = (a..b).rev();`
                 if let (Pat::Ident(pi), Some(init)) = (&l.pat, &l.init) {
@@ -820,6 +855,105 @@ impl<'a> Body<'a> {
         )))
     }
 
+    /// R11 / R16: the first iterator chain `S.iter().map(|m| F).sum::<usize>()`, `S.iter().filter(|m| P).count()` or
+    /// `S.iter().map(|m| F).min().unwrap_or(D)` inside a statement is hoisted into an explicit loop before it
+    fn hoist_chain(&mut self, stmt: &Stmt) -> Option<Vec<Stmt>> {
+        struct Finder {
+            found: Option<(String, Expr, Ident, Expr, Option<Expr>)>, // kind, source, param, body, default
+            var: Ident,
+        }
+        impl VisitMut for Finder {
+            fn visit_expr_mut(&mut self, e: &mut Expr) {
+                if self.found.is_some() {
+                    return;
+                }
+                match e {
+                    Expr::Closure(_) | Expr::ForLoop(_) | Expr::While(_) | Expr::Loop(_) => return,
+                    _ => {}
+                }
+                if let Some(hit) = match_chain(e) {
+                    self.found = Some(hit);
+                    let v = &self.var;
+                    *e = parse_expr(quote!(#v));
+                    return;
+                }
+                visit_mut::visit_expr_mut(self, e);
+            }
+        }
+        match stmt {
+            Stmt::Expr(Expr::ForLoop(_), _) | Stmt::Expr(Expr::While(_), _) | Stmt::Expr(Expr::Loop(_), _) | Stmt::Expr(Expr::If(_), _) | Stmt::Expr(Expr::Block(_), _) | Stmt::Expr(Expr::Unsafe(_), _) | Stmt::Item(_) | Stmt::Macro(_) => return None,
+            _ => {}
+        }
+        let k = self.counter;
+        let var = ident(&format!("__acc{k}"));
+        let mut f = Finder { found: None, var: var.clone() };
+        let mut st = stmt.clone();
+        f.visit_stmt_mut(&mut st);
+        let (kind, src, m, body, dflt) = f.found?;
+        self.counter += 1;
+        let (end, i) = (ident(&format!("__end{k}")), ident(&format!("__i{k}")));
+        let pre: Vec<Stmt> = match kind.as_str() {
+            "sum" => {
+                self.note("R11", format!("{}.iter().map(|{}| ..).sum() -> accumulating loop", src.to_token_stream(), m));
+                let ty: Type = match &dflt { Some(Expr::Path(p)) => syn::parse2(p.to_token_stream()).unwrap(), _ => parse_quote!(usize) };
+                parse_stmts(quote!(
+                    let mut #var: #ty = 0;
+                    let #end = #src.len();
+                    for #i in 0..#end { let #m = &#src[#i]; #var += #body; }
+                ))
+            }
+            "count" => {
+                self.note("R16", format!("{}.iter().filter(|{}| ..).count() -> counting loop", src.to_token_stream(), m));
+                parse_stmts(quote!(
+                    let mut #var: usize = 0;
+                    let #end = #src.len();
+                    for #i in 0..#end { let #m = &#src[#i]; if #body { #var += 1; } }
+                ))
+            }
+            _ => {
+                let d = dflt.unwrap();
+                let opt = ident(&format!("__min{k}"));
+                self.note("R16", format!("{}.iter().map(|{}| ..).min().unwrap_or(..) -> min loop", src.to_token_stream(), m));
+                parse_stmts(quote!(
+                    let mut #opt: Option<usize> = None;
+                    let #end = #src.len();
+                    for #i in 0..#end { let #m = &#src[#i]; let __v = #body; #opt = match #opt { Some(__c) => if __v < __c { Some(__v) } else { Some(__c) }, None => Some(__v) }; }
+                    let #var = match #opt { Some(__c) => __c, None => #d };
+                ))
+            }
+        };
+        let mut out = pre;
+        out.push(st);
+        Some(out)
+    }
+
+    /// R16: for (a, b) in A.iter().zip(B.iter()) { .. }
+    fn rule_zip(&mut self, fl: &ExprForLoop) -> Option<Vec<Stmt>> {
+        let Expr::MethodCall(z) = &*fl.expr else { return None };
+        if z.method != "zip" || z.args.len() != 1 {
+            return None;
+        }
+        let Expr::MethodCall(ia) = &*z.receiver else { return None };
+        let Expr::MethodCall(ib) = &z.args[0] else { return None };
+        if ia.method != "iter" || ib.method != "iter" {
+            return None;
+        }
+        let Pat::Tuple(pt) = &*fl.pat else { return None };
+        if pt.elems.len() != 2 {
+            return None;
+        }
+        let (pa, pb) = (&pt.elems[0], &pt.elems[1]);
+        let (a, b) = (&ia.receiver, &ib.receiver);
+        let k = self.fresh();
+        let (end, i) = (ident(&format!("__end{k}")), ident(&format!("__i{k}")));
+        let body = &fl.body.stmts;
+        self.note("R16", format!("for (..) in {}.iter().zip({}.iter()) -> index loop to the shorter length", a.to_token_stream(), b.to_token_stream()));
+        Some(parse_stmts(quote!(
+            let #end = vmin(#a.len(), #b.len());
+            for #i in 0..#end { let #pa = &#a[#i]; let #pb = &#b[#i]; #(#body)* }
+        )))
+    }
+
     /// R6: v.extend(E.iter().map(F));
     fn rule_extend_map(&mut self, mc: &ExprMethodCall) -> Option<Vec<Stmt>> {
         if mc.method != "extend" || mc.args.len() != 1 {
@@ -858,6 +992,55 @@ fn as_rev_range(e: &Expr) -> Option<(Expr, Expr)> {
         return None;
     }
     Some(((**r.start.as_ref()?).clone(), (**r.end.as_ref()?).clone()))
+}
+
+/// recognises the three reducible iterator chains; returns (kind, source, closure parameter, closure body, default)
+fn match_chain(e: &Expr) -> Option<(String, Expr, Ident, Expr, Option<Expr>)> {
+    let Expr::MethodCall(top) = e else { return None };
+    let one_param = |c: &ExprClosure| -> Option<Ident> {
+        if c.inputs.len() != 1 {
+            return None;
+        }
+        match &c.inputs[0] {
+            Pat::Ident(pi) => Some(pi.ident.clone()),
+            _ => None,
+        }
+    };
+    let iter_src = |x: &Expr| -> Option<Expr> {
+        let Expr::MethodCall(it) = x else { return None };
+        if it.method == "iter" && it.args.is_empty() { Some((*it.receiver).clone()) } else { None }
+    };
+    if top.method == "sum" && top.args.is_empty() {
+        let Expr::MethodCall(map) = &*top.receiver else { return None };
+        if map.method != "map" || map.args.len() != 1 {
+            return None;
+        }
+        let Expr::Closure(c) = &map.args[0] else { return None };
+        // the element type of `sum::<T>()` rides in the "default" slot as a path expression
+        let ty: Option<Expr> = top.turbofish.as_ref().and_then(|t| t.args.first()).and_then(|a| match a { GenericArgument::Type(Type::Path(tp)) => Some(Expr::Path(ExprPath { attrs: vec![], qself: None, path: tp.path.clone() })), _ => None });
+        return Some(("sum".into(), iter_src(&map.receiver)?, one_param(c)?, (*c.body).clone(), ty));
+    }
+    if top.method == "count" && top.args.is_empty() {
+        let Expr::MethodCall(fil) = &*top.receiver else { return None };
+        if fil.method != "filter" || fil.args.len() != 1 {
+            return None;
+        }
+        let Expr::Closure(c) = &fil.args[0] else { return None };
+        return Some(("count".into(), iter_src(&fil.receiver)?, one_param(c)?, (*c.body).clone(), None));
+    }
+    if top.method == "unwrap_or" && top.args.len() == 1 {
+        let Expr::MethodCall(mn) = &*top.receiver else { return None };
+        if mn.method != "min" || !mn.args.is_empty() {
+            return None;
+        }
+        let Expr::MethodCall(map) = &*mn.receiver else { return None };
+        if map.method != "map" || map.args.len() != 1 {
+            return None;
+        }
+        let Expr::Closure(c) = &map.args[0] else { return None };
+        return Some(("min".into(), iter_src(&map.receiver)?, one_param(c)?, (*c.body).clone(), Some(top.args[0].clone())));
+    }
+    None
 }
 
 /// S.iter().find(|m| P)  ->  (S, m, P)
